@@ -23,6 +23,7 @@ GUARD = "XEOFS_VERIF"
 # environment for every process that imports xeofs -------------------------
 os.environ[GUARD] = "1"
 os.environ.setdefault("PYTHONHASHSEED", "0")
+os.environ.setdefault("TQDM_DISABLE", "1")
 os.environ.setdefault("OMP_NUM_THREADS", "1")
 os.environ.setdefault("OPENBLAS_NUM_THREADS", "1")
 os.environ.setdefault("MKL_NUM_THREADS", "1")
@@ -106,6 +107,12 @@ class Report:
                     if k["id"] == kf["id"]:
                         k["count"] += 1
         else:
+            # one entry per distinct (clause, message); further occurrences are counted
+            for u in self.violations:
+                if u.clause == v.clause and u.what == v.what:
+                    u.count = getattr(u, "count", 1) + 1
+                    return u
+            v.count = 1
             self.violations.append(v)
         return v
 
@@ -182,7 +189,7 @@ def finish(rep: Report) -> int:
         if i < 25:
             path = rdir / f"viol_{i:03d}.json"
             path.write_text(json.dumps(_jsonable(dict(property=v.prop, clause=v.clause, what=v.what, scenario=v.replay)), indent=1))
-            print(f"VIOLATION property={rep.prop} replay={path}  [{v.clause}] {v.what}")
+            print(f"VIOLATION property={rep.prop} replay={path}  [{v.clause}] {v.what} (x{getattr(v, 'count', 1)})")
             shown += 1
     if len(rep.violations) > shown:
         print(f"... and {len(rep.violations) - shown} more violations of {rep.prop}")
